@@ -369,3 +369,22 @@ func ParseMessages(b []byte) ([]*Message, error) {
 		out = append(out, m)
 	}
 }
+
+// SendMany sends several messages in one socket write (back-to-back requests).
+func (c *Conn) SendMany(msgs ...[]byte) error {
+	var all []byte
+	for _, m := range msgs {
+		if c.secure {
+			var sizes []int
+			if c.SplitSizes != nil {
+				sizes = c.SplitSizes(len(m))
+			}
+			before := c.wr.Count
+			all = append(all, c.wr.SealFrames(m, sizes)...)
+			c.FramesOut += int(c.wr.Count - before)
+		} else {
+			all = append(all, m...)
+		}
+	}
+	return c.WriteRaw(all)
+}
